@@ -9,6 +9,10 @@ from rules import common
 from rules.C07 import _key_is, iter_source, block_of
 
 EXPLANATION = (
+    "Typestate analysis of compile() (rule C10.T1): the statements of compile() are interpreted over an abstract "
+    "state that tracks one arbitrary module through every local map, with every component call returning or raising "
+    "any package error class, every option setting and every iteration order; invariants are evaluated at the "
+    "component calls and at every return (see rules/compile_ts.py INV). "
     "Rules on the searcher protocol handling in compile() (both searcher loops: not-modified -> drop from the work "
     "map, status untouched, stop asking; not-found / error -> next searcher; handler order; fileExists receives the "
     "module name, the source mtime of that module and rebuild=options.get('rebuild')), on the noDeps filter (the "
@@ -21,7 +25,7 @@ ASSUMPTIONS = [
     "layout of the .pyc header (PEP 552) and filesystem timestamp granularity are not judged",
     "os.stat()[8] is ST_MTIME",
 ]
-TECHNIQUE = 'AST/CFG rules: handler-shape agreement of sibling loops, guard dominance, provenance of compared times'
+TECHNIQUE = 'AST/CFG rules: handler-shape agreement of sibling loops, guard dominance, provenance of compared times; typestate abstract interpretation of compile() (path-sensitive dataflow over a finite per-module domain, rules/compile_ts.py)'
 
 SEARCHERS = (('pysmi/searcher/anyfile.py', 'AnyFileSearcher'), ('pysmi/searcher/pyfile.py', 'PyFileSearcher'),
              ('pysmi/searcher/pypackage.py', 'PyPackageSearcher'))
@@ -489,4 +493,12 @@ def r8_wellformedness(chk):
 
 
 
-RULES = [r1_searcher_protocol, r2_nodeps_filter, r3_file_searchers, r4_stub, r5_package_delegation, r6_argument_agreement, r7_guard_polarity, r8_wellformedness]
+
+def t1_typestate(chk):
+    """typestate analysis of compile() (rules/compile_ts.py): end-to-end bookkeeping invariants for an arbitrary
+    module over every outcome of every component call"""
+    from rules import compile_ts
+    compile_ts.ts_rule(chk, 'C10.T1', ['fresh', 'nodeps'])
+
+
+RULES = [r1_searcher_protocol, r2_nodeps_filter, r3_file_searchers, r4_stub, r5_package_delegation, r6_argument_agreement, r7_guard_polarity, r8_wellformedness, t1_typestate]
